@@ -14,7 +14,7 @@ func init() {
 	register(&propertyDef{
 		id:    "C11",
 		title: "parsing any files yields a workflow or an error, never a crash or endless loop",
-		rules: []ruleFunc{c11R1, c11R1b, c11R2, c11R3},
+		rules: []ruleFunc{c11R1, c11R1b, c11R2, c11R2c, c11R3},
 		decided: "every explicit panic and unchecked type assertion in the parse and prepare paths is justified by a dominating validation (tabled, several recomputed); map-key lookups whose `found` result is ignored use keys listed by the same node, and the YAML transform admits only scalar keys (R1); " +
 			"every call-graph cycle through parse/prepare functions has, on each of its cycles, a call whose argument is a strict projection of the caller's parameter (structural decrease) or is guarded by a visited-set membership test (R2); " +
 			"the errors of file reads and context lookups are propagated to the caller (R3).",
@@ -408,12 +408,12 @@ func (c *Ctx) checkScalarKeys() (bool, string) {
 			n2, isC2 := constInt(b2.Y)
 			return isC2 && n2 == 4
 		}) != nil
-		if returnsErr && mapCase {
+		if returnsErr && mapCase && c.scalarCheckCoversAllKeys(fn, r.Block, b.X) {
 			found = true
 		}
 	})
 	if !found {
-		return false, "the YAML transform does not reject mapping nodes with non-scalar keys: `? [a, b] : c` yields a key node whose Raw() is not a string (the assertion panics) and whose lookup by MapKey fails (nil dereference)"
+		return false, "the YAML transform does not reject a non-scalar key at every key position of a mapping node (the check must visit each even index of Content): `? [a, b] : c` yields a key node whose Raw() is not a string (the assertion panics) and whose lookup by MapKey fails (nil dereference)"
 	}
 	return true, "transform returns an error for mapping nodes with a non-scalar key, so every key node is a string node (Raw() returns its string value)"
 }
@@ -1049,4 +1049,161 @@ func sameKey(a, b ssa.Value) bool {
 		return true
 	}
 	return valueOrigin(a) == valueOrigin(b) && a.Type().String() == b.Type().String()
+}
+
+// C11.R2c the in-progress marker of a guarded recursion is a stack.
+// A recursion guarded by an "already being processed" set whose hit is reported as an ERROR (self-reference) must remove
+// the marker of a child as soon as the child's subtree is done: on every path from the recursive call back to the next
+// membership test (or to a successful return) the key is deleted from the set. A deferred delete, or none, leaves the
+// markers of finished siblings set, so a file shared by two branches is mistaken for a cycle — depending on map order.
+func c11R2c(c *Ctx) {
+	const rule = "C11.R2c"
+	c.explain("C11.R2c where a recursion over file contents is guarded by an in-progress set whose hit returns an error, the marker inserted before the recursive call is deleted (not deferred) on every path from that call to the next membership test and to every successful return: a sub-workflow shared by several branches is not a cycle")
+	n := 0
+	scope := append(c.sortedFns(c.Scopes().parse), c.sortedFns(c.Scopes().prepare)...)
+	done := map[*ssa.Function]bool{}
+	for _, fn := range scope {
+		if done[fn] {
+			continue
+		}
+		done[fn] = true
+		eachInstr(fn, func(r instrRef) {
+			call, ok := r.I.(*ssa.Call)
+			if !ok {
+				return
+			}
+			callee := call.Common().StaticCallee()
+			if callee == nil {
+				return
+			}
+			if _, back := c.CG().reach([]*ssa.Function{callee}, false, false)[fn]; !back {
+				return
+			}
+			// membership test guarding the call
+			var lookup *ssa.Lookup
+			g := guardedBy(call, false, func(cond ssa.Value) bool {
+				ex, ok := cond.(*ssa.Extract)
+				if !ok || ex.Index != 1 {
+					return false
+				}
+				l, ok := ex.Tuple.(*ssa.Lookup)
+				if !ok || !l.CommaOk {
+					return false
+				}
+				lookup = l
+				return true
+			})
+			if g == nil || lookup == nil {
+				return
+			}
+			// the hit edge returns an error?
+			hitErr := false
+			{
+				for _, in := range g.Block().Succs[0].Instrs {
+					if ret, ok := in.(*ssa.Return); ok {
+						res := retResults(ret)
+						if len(res) > 0 && !isNilConst(res[len(res)-1]) {
+							hitErr = true
+						}
+					}
+				}
+			}
+			var mark *ssa.MapUpdate
+			eachInstr(fn, func(r2 instrRef) {
+				if mu, ok := r2.I.(*ssa.MapUpdate); ok && mu.Map == lookup.X && dominates(mu, call) {
+					mark = mu
+				}
+			})
+			if mark == nil || !hitErr {
+				return
+			}
+			n++
+			key := "marker-stack@" + c.fnName(fn)
+			isDelete := func(in ssa.Instruction) bool {
+				cl, ok := in.(*ssa.Call)
+				return ok && isBuiltinCall(cl, "delete") && cl.Call.Args[0] == lookup.X
+			}
+			target := func(in ssa.Instruction) bool {
+				if in == ssa.Instruction(lookup) {
+					return true
+				}
+				if ret, ok := in.(*ssa.Return); ok {
+					res := retResults(ret)
+					return len(res) > 0 && isNilConst(res[len(res)-1])
+				}
+				return false
+			}
+			path := c.findPath(fn, call, isDelete, target)
+			c.verdict(path == nil, rule, key, c.instrPos(call), "the in-progress marker is removed on every path from the recursive call to the next membership test and to every successful return",
+				"after the recursive call the in-progress marker can still be set when the next file is tested (or on return): a sub-workflow that two branches share is then reported as referring to itself, depending on the order of the file map", path...)
+		})
+	}
+	c.minCount(rule, "error-reporting in-progress guards", n, 1)
+}
+
+// scalarCheckCoversAllKeys: the block that tests Content[i].Kind lies in a loop that visits every key position of the
+// mapping node (keys are at the even indexes of Content): an index loop from 0 with step 1 or 2 that continues while
+// i (+0 or +1) < len(Content), or a range over Content. An off-by-one bound (i+2 < len) skips the last key.
+func (c *Ctx) scalarCheckCoversAllKeys(fn *ssa.Function, blk *ssa.BasicBlock, kindLoad ssa.Value) bool {
+	var idx ssa.Value
+	if u, ok := kindLoad.(*ssa.UnOp); ok {
+		if fa, ok := u.X.(*ssa.FieldAddr); ok {
+			if el, ok := fa.X.(*ssa.UnOp); ok {
+				if ia, ok := el.X.(*ssa.IndexAddr); ok {
+					idx = ia.Index
+				}
+			}
+			if idx == nil {
+				for _, li := range loopsOf(fn) {
+					if li.Blocks[blk] && li.Range != nil {
+						return true
+					}
+				}
+			}
+		}
+	}
+	phi, ok := idx.(*ssa.Phi)
+	if !ok {
+		return false
+	}
+	for _, li := range loopsOf(fn) {
+		if !li.Blocks[blk] || phi.Block() != li.Header {
+			continue
+		}
+		initOK, stepOK := false, false
+		for _, e := range phi.Edges {
+			if n, isC := constInt(e); isC {
+				if n == 0 {
+					initOK = true
+				}
+				continue
+			}
+			if b, ok := e.(*ssa.BinOp); ok && b.Op == token.ADD && b.X == ssa.Value(phi) {
+				if n, isC := constInt(b.Y); isC && (n == 1 || n == 2) {
+					stepOK = true
+				}
+			}
+		}
+		condOK := false
+		if ifi, ok := li.Header.Instrs[len(li.Header.Instrs)-1].(*ssa.If); ok {
+			if b, ok := ifi.Cond.(*ssa.BinOp); ok && b.Op == token.LSS && li.Blocks[li.Header.Succs[0]] {
+				if l, ok := b.Y.(*ssa.Call); ok && isBuiltinCall(l, "len") {
+					switch x := b.X.(type) {
+					case *ssa.Phi:
+						condOK = x == phi
+					case *ssa.BinOp:
+						if x.Op == token.ADD && x.X == ssa.Value(phi) {
+							if n, isC := constInt(x.Y); isC && (n == 0 || n == 1) {
+								condOK = true
+							}
+						}
+					}
+				}
+			}
+		}
+		if initOK && stepOK && condOK {
+			return true
+		}
+	}
+	return false
 }
